@@ -72,7 +72,7 @@ def regex_part(ctx):
         ctx.broke("c03.regex build: " + str(e)[:300], str(e))
         return
     corpus = os.path.join(vlib.ROOT, "corpus", "C03.regex.txt")
-    cmd = [h, "-seed", str(ctx.sseed(stream)), "-n", str(ctx.n(1500, 60000)), "-tier", ctx.tier]
+    cmd = [h, "-seed", str(ctx.sseed(stream)), "-n", str(ctx.n(1500, 20000)), "-tier", ctx.tier]
     if os.path.exists(corpus):
         cmd += ["-input", corpus]
     rc, out = vlib.sh(cmd, timeout=3000, env=vlib.elk_env())
@@ -194,7 +194,7 @@ def front_stream(ctx):
     stream = "c03.front"
     h = vlib.build_harness("c03")
     corpus = os.path.join(vlib.ROOT, "corpus", "C03.front.txt")
-    cmd = [h, "-seed", str(ctx.sseed(stream)), "-n", str(ctx.n(3000, 120000)), "-tier", ctx.tier]
+    cmd = [h, "-seed", str(ctx.sseed(stream)), "-n", str(ctx.n(3000, 30000)), "-tier", ctx.tier]
     if os.path.exists(corpus):
         cmd += ["-input", corpus]
     rc, out = vlib.sh(cmd, timeout=3000, env=vlib.elk_env({"VERIF_REPO": vlib.REPO}), cwd=ctx.workdir)
